@@ -107,6 +107,20 @@ func queryCode(s string) int {
 	return 99
 }
 
+func mstCode(s string) int {
+	if n, ok := numAfter(s, "m"); ok {
+		return n
+	}
+	return 99
+}
+
+func streamCode(s string) int {
+	if n, ok := numAfter(s, "st"); ok {
+		return n
+	}
+	return 99
+}
+
 func modeCode(s string) int {
 	switch s {
 	case "ALL":
@@ -145,6 +159,16 @@ func modelRows(d *meta2.Data) [][]string {
 		add(1, code(key), code(db.DefaultRetentionPolicy), b2i(db.MarkDeleted))
 		for rk, rp := range db.RetentionPolicies {
 			add(2, code(key), code(rk), b2i(rp.MarkDeleted), int64(rp.Duration), int64(rp.ShardGroupDuration), len(rp.Measurements), len(rp.ShardGroups), len(rp.IndexGroups))
+			for gi := range rp.ShardGroups {
+				for _, sh := range rp.ShardGroups[gi].Shards {
+					add(15, sh.ID, sh.Tier)
+				}
+			}
+			for gi := range rp.IndexGroups {
+				for _, ix := range rp.IndexGroups[gi].Indexes {
+					add(16, ix.ID, ix.Tier)
+				}
+			}
 			for i, s := range rp.Subscriptions {
 				dest := 99
 				if len(s.Destinations) == 1 {
@@ -165,6 +189,15 @@ func modelRows(d *meta2.Data) [][]string {
 		n := &d.DataNodes[i]
 		add(3, i, n.ID, addrCode(n.Host), addrCode(n.TCPHost), n.ConnID)
 		add(12, n.ID, n.Index)
+		add(17, i, int(n.Status), n.LTime, n.AliveConnID, b2i(n.GossipAddr != ""))
+	}
+	for db, pts := range d.PtView {
+		for i, pt := range pts {
+			add(18, code(db), i, pt.Owner.NodeID, int(pt.Status), pt.Ver)
+		}
+	}
+	for name, st := range d.Streams {
+		add(19, streamCode(name), st.ID, code(st.SrcMst.Database), code(st.SrcMst.RetentionPolicy), mstCode(st.SrcMst.Name), mstCode(st.DesMst.Name), int64(st.Interval/time.Second))
 	}
 	add(4, d.ClusterPtNum, d.MaxNodeID, d.MaxShardGroupID, d.MaxShardID, d.MaxMstID, d.MaxIndexGroupID, d.MaxIndexID, d.MaxConnID)
 	for i := range d.Users {
@@ -174,14 +207,14 @@ func modelRows(d *meta2.Data) [][]string {
 			add(6, userCode(u.Name), code(db), int(p))
 		}
 	}
-	add(8, d.MaxSubscriptionID, d.MaxCQChangeID, d.ClusterID, b2i(d.TakeOverEnabled), b2i(d.BalancerEnabled), d.Term, d.Index)
+	add(8, d.MaxSubscriptionID, d.MaxCQChangeID, d.ClusterID, b2i(d.TakeOverEnabled), b2i(d.BalancerEnabled), d.Term, d.Index, d.MaxStreamID)
 	for i := range d.MetaNodes {
 		n := &d.MetaNodes[i]
-		add(10, i, n.ID, addrCode(n.Host), addrCode(n.TCPHost))
+		add(10, i, n.ID, addrCode(n.Host), addrCode(n.TCPHost), int(n.Status), n.LTime)
 	}
 	for i := range d.SqlNodes {
 		n := &d.SqlNodes[i]
-		add(11, i, n.ID, addrCode(n.TCPHost), n.ConnID, n.Index)
+		add(11, i, n.ID, addrCode(n.TCPHost), n.ConnID, n.Index, int(n.Status), n.LTime, n.AliveConnID)
 	}
 	for h, off := range d.QueryIDInit {
 		add(13, addrCode(string(h))-100, off)
@@ -276,7 +309,18 @@ func genModelCmd(r *gen.Rand, d *meta2.Data) Cmd {
 		return uint64(r.Intn(6))
 	}
 	sgd := []int64{0, Hour, Hour, 2 * Hour, 24 * Hour}
-	k := r.Intn(200)
+	var ixs []uint64
+	for _, db := range d.Databases {
+		for _, rp := range db.RetentionPolicies {
+			for _, g := range rp.IndexGroups {
+				for _, x := range g.Indexes {
+					ixs = append(ixs, x.ID)
+				}
+			}
+		}
+	}
+	sort.Slice(ixs, func(i, j int) bool { return ixs[i] < ixs[j] })
+	k := r.Intn(252)
 	if len(d.DataNodes) == 0 && r.Chance(3, 4) {
 		k = 0
 	} else if len(dbs) == 0 && r.Chance(2, 3) {
@@ -375,7 +419,7 @@ func genModelCmd(r *gen.Rand, d *meta2.Data) Cmd {
 		for _, db := range names {
 			if v := d.PtView[db]; len(v) > 0 {
 				pt := v[r.Intn(len(v))]
-				c := Cmd{K: "uptinfo", DB: code(db), Pt: int(pt.PtId), COwner: pt.Owner.NodeID, CStat: int(pt.Status), Status: r.Range(1, 3), Owner: pt.Owner.NodeID}
+				c := Cmd{K: "uptinfo", DB: code(db), Pt: int(pt.PtId), COwner: pt.Owner.NodeID, CStat: int(pt.Status), Status: r.Intn(4), Owner: pt.Owner.NodeID}
 				if r.Bool() {
 					c.Owner = nodeID()
 				}
@@ -435,12 +479,48 @@ func genModelCmd(r *gen.Rand, d *meta2.Data) Cmd {
 		return Cmd{K: "dcq", S1: gen.Pick(r, cqs), DB: anyDB()}
 	case k < 180:
 		return Cmd{K: "cqlease"}
-	default:
+	case k < 200:
 		c := Cmd{K: "tmpindex", Status: r.Intn(3), U1: uint64(r.Intn(50)), ID: nodeID()}
 		if c.Status == 0 && len(d.SqlNodes) > 0 && r.Chance(4, 5) {
 			c.ID = gen.Pick(r, d.SqlNodes).ID
 		}
 		return c
+	case k < 202:
+		return Cmd{K: "expand"}
+	case k < 203:
+		return Cmd{K: "rmnode", ID: nodeID()}
+	case k < 207:
+		return Cmd{K: "ptver", DB: anyDB(), Pt: r.Intn(4)}
+	case k < 216:
+		return Cmd{K: "nstatus", ID: nodeID(), Status: r.Intn(5), U1: uint64(r.Intn(6))}
+	case k < 220:
+		c := Cmd{K: "sqlstatus", ID: uint64(r.Intn(6)), Status: r.Intn(5), U1: uint64(r.Intn(6))}
+		if len(d.SqlNodes) > 0 && r.Chance(4, 5) {
+			c.ID = gen.Pick(r, d.SqlNodes).ID
+		}
+		return c
+	case k < 224:
+		c := Cmd{K: "metastatus", ID: uint64(r.Intn(6)), Status: r.Intn(5), U1: uint64(r.Intn(6))}
+		if len(d.MetaNodes) > 0 && r.Chance(4, 5) {
+			c.ID = gen.Pick(r, d.MetaNodes).ID
+		}
+		return c
+	case k < 230:
+		c := Cmd{K: "shtier", DB: p.db, RP: p.rp, ID: uint64(r.Intn(10)), U1: uint64(r.Range(1, 4))}
+		if len(shards) > 0 && r.Chance(5, 6) {
+			c.ID = gen.Pick(r, shards)
+		}
+		return c
+	case k < 234:
+		c := Cmd{K: "ixtier", DB: p.db, RP: p.rp, ID: uint64(r.Intn(10)), U1: uint64(r.Range(1, 4))}
+		if len(ixs) > 0 && r.Chance(5, 6) {
+			c.ID = gen.Pick(r, ixs)
+		}
+		return c
+	case k < 246:
+		return Cmd{K: "cstream", S1: gen.Pick(r, streams), DB: p.db, RP: p.rp, M: r.Range(1, 3), Ver: r.Range(1, 3), U1: uint64(r.Range(1, 2)), S2: ""}
+	default:
+		return Cmd{K: "dstream", S1: gen.Pick(r, streams)}
 	}
 }
 
@@ -522,6 +602,25 @@ func modelCorpus() []*MCase {
 			{K: "csub", DB: 1, RP: 2, S1: "sub1", S2: "ANY", H: 2}, {K: "csub", DB: 2, RP: 0, S1: "sub0", S2: "ALL", H: 3}, {K: "dsub", DB: 1, RP: 0, S1: "sub1"},
 			{K: "dsub", DB: 1, RP: 0, S1: "sub1"}, {K: "csub", DB: 1, RP: 2, S1: "sub0", S2: "ANY", H: 2}, {K: "dsub", DB: 1, RP: 0, S1: "sub0"}, {K: "restore"},
 			{K: "droprp", DB: 1, RP: 2}, {K: "dsub", DB: 1, S1: ""}, {K: "dsub", DB: 0, S1: "sub0"}, {K: "dropdb", DB: 2}}),
+		// node status: takeover switch, logical time, alive connection id, partitions of the node go offline; a partition of an
+		// alive node may be set online
+		runModelCase("m-node-status", cf, 0, nil, []Cmd{{K: "cnode", H: 1, T: 1}, {K: "cnode", H: 2, T: 2}, {K: "cdb", DB: 1, HasRP: true, RP: 1, D: i64(0), SGD: i64(Hour)},
+			{K: "cptv", DB: 1}, {K: "uptinfo", DB: 1, Pt: 0, COwner: 1, CStat: 3, Owner: 1, Status: 0}, {K: "nstatus", ID: 1, Status: 1, U1: 2},
+			{K: "uptinfo", DB: 1, Pt: 0, COwner: 1, CStat: 3, Owner: 1, Status: 0}, {K: "nstatus", ID: 1, Status: 4, U1: 1}, {K: "nstatus", ID: 1, Status: 4, U1: 3},
+			{K: "ptver", DB: 1, Pt: 1}, {K: "ptver", DB: 1, Pt: 7}, {K: "ptver", DB: 2, Pt: 0}, {K: "takeover", Def: false}, {K: "nstatus", ID: 2, Status: 1, U1: 9},
+			{K: "csql", H: 1}, {K: "sqlstatus", ID: 3, Status: 1, U1: 2}, {K: "sqlstatus", ID: 3, Status: 2, U1: 1}, {K: "cmeta", H: 1, T: 5, U1: 7},
+			{K: "metastatus", ID: 4, Status: 1, U1: 2}, {K: "metastatus", ID: 9, Status: 1, U1: 2}, {K: "restore"}, {K: "cnode", H: 1, T: 1}, {K: "nstatus", ID: 1, Status: 1, U1: 5}}),
+		// tiers, and an expansion on a node join: the new shard takes the tier of the shard before it
+		runModelCase("m-tiers-expand", Conf{PtPer: 1, Expand: true}, 0, nil, []Cmd{{K: "cnode", H: 1, T: 1}, {K: "cdb", DB: 1, HasRP: true, RP: 1, D: i64(0), SGD: i64(Hour)},
+			{K: "cmst", DB: 1, RP: 1, M: 1}, {K: "csg", DB: 1, RP: 1, TS: Base}, {K: "shtier", DB: 1, RP: 1, ID: 1, U1: 3}, {K: "shtier", DB: 1, RP: 1, ID: 9, U1: 3},
+			{K: "ixtier", DB: 1, RP: 1, ID: 1, U1: 2}, {K: "cnode", H: 2, T: 2}, {K: "csg", DB: 1, RP: 1, TS: Base + 3*Hour}, {K: "restore"}, {K: "cnode", H: 3, T: 3},
+			{K: "expand"}, {K: "shtier", DB: 1, RP: 0, ID: 2, U1: 4}}),
+		// streams: re-creation takes a new id, a different definition is refused, the Mark commands are refused while a stream refers
+		runModelCase("m-streams", cf, 0, nil, []Cmd{{K: "cnode", H: 1, T: 1}, {K: "cdb", DB: 1, HasRP: true, RP: 1, D: i64(0), SGD: i64(Hour)},
+			{K: "cmst", DB: 1, RP: 1, M: 1}, {K: "cmst", DB: 1, RP: 1, M: 3}, {K: "cstream", S1: "st1", DB: 1, RP: 1, M: 1, Ver: 2, U1: 1},
+			{K: "cstream", S1: "st1", DB: 1, RP: 1, M: 1, Ver: 2, U1: 1}, {K: "cstream", S1: "st1", DB: 1, RP: 1, M: 1, Ver: 2, U1: 2},
+			{K: "markmst", DB: 1, RP: 1, M: 1}, {K: "markmst", DB: 1, RP: 1, M: 3}, {K: "markrp", DB: 1, RP: 1}, {K: "markdb", DB: 1}, {K: "restore"},
+			{K: "dstream", S1: "st2"}, {K: "dstream", S1: "st1"}, {K: "markmst", DB: 1, RP: 1, M: 1}, {K: "markdb", DB: 1}}),
 		// users and privileges; dropping a database removes its privileges and its continuous queries
 		runModelCase("m-users", cf, 0, nil, []Cmd{{K: "cnode", H: 1, T: 1}, {K: "cdb", DB: 1}, {K: "cuser", S1: "admin", S2: "hash0", Def: true},
 			{K: "cuser", S1: "u1", S2: "hash1"}, {K: "cuser", S1: "u2", S2: "hash1", Def: true}, {K: "setpriv", S1: "u1", DB: 1, Status: 2}, {K: "setpriv", S1: "u1", DB: 2, Status: 1},
